@@ -110,6 +110,12 @@ type genResult struct {
 // generate runs the generator and collects the output files THIS run wrote (an output file that was
 // lying in the directory and was not rewritten is a leftover, not output).
 func (e *env) generate(cli, dir string, files []string, extraEnv ...string) genResult {
+	return e.generateFrom(cli, dir, files, dir, files, extraEnv...)
+}
+
+// generateFrom is generate with the invocation spelled differently: the process starts in cwd and
+// names the declaration files as args (absolute, or relative to cwd); dir/files say where the output lands.
+func (e *env) generateFrom(cli, cwd string, args []string, dir string, files []string, extraEnv ...string) genResult {
 	before := map[string]time.Time{}
 	for _, f := range files {
 		if fi, err := os.Stat(filepath.Join(dir, bandOf(f))); err == nil {
@@ -117,7 +123,7 @@ func (e *env) generate(cli, dir string, files []string, extraEnv ...string) genR
 		}
 	}
 	start := time.Now()
-	r := drv.Run(dir, 5*time.Minute, extraEnv, cli, append([]string{"-l", "error"}, files...)...)
+	r := drv.Run(cwd, 5*time.Minute, extraEnv, cli, append([]string{"-l", "error"}, args...)...)
 	if r.Code == -2 {
 		drv.Broken("generator timed out in %s", dir)
 	}
@@ -384,20 +390,21 @@ func genHistory(r *progen.Rand, t *target) []histOp {
 // ---------------------------------------------------------------- the check
 
 type replayFile struct {
-	Engine    string            `json:"engine"`
-	Property  string            `json:"property"`
-	Signature string            `json:"signature"`
-	Detail    string            `json:"detail"`
-	Target    string            `json:"target"`
-	Origin    string            `json:"origin"`
-	Spec      *progen.Spec      `json:"spec,omitempty"`
-	Files     []string          `json:"files"`
-	History   []histOp          `json:"history,omitempty"`
-	MapSeeds  []uint64          `json:"map_seeds,omitempty"`
-	Procs     []int             `json:"gomaxprocs,omitempty"`
-	Clean     map[string]string `json:"clean_output"`
-	Other     map[string]string `json:"other_output"`
-	Stderr    string            `json:"stderr,omitempty"`
+	Engine     string            `json:"engine"`
+	Property   string            `json:"property"`
+	Signature  string            `json:"signature"`
+	Detail     string            `json:"detail"`
+	Target     string            `json:"target"`
+	Origin     string            `json:"origin"`
+	Spec       *progen.Spec      `json:"spec,omitempty"`
+	Files      []string          `json:"files"`
+	History    []histOp          `json:"history,omitempty"`
+	MapSeeds   []uint64          `json:"map_seeds,omitempty"`
+	Procs      []int             `json:"gomaxprocs,omitempty"`
+	Invocation int               `json:"invocation,omitempty"` // 1 = absolute file names + other TMPDIR/TZ/locale, 2 = from the parent directory
+	Clean      map[string]string `json:"clean_output"`
+	Other      map[string]string `json:"other_output"`
+	Stderr     string            `json:"stderr,omitempty"`
 }
 
 type counters struct {
@@ -562,7 +569,45 @@ func (e *env) checkTarget(t *target, seed uint64, idx int, tier string, c *count
 			break
 		}
 	}
+	// (4) the same input invoked differently: absolute file names; from the parent directory; under
+	// another TMPDIR / TZ / locale. The input package is the same, so is the output.
+	for v := 0; v < 2; v++ {
+		d := work()
+		g := e.invokeVariant(d, t, v)
+		how := invocationNames[v]
+		done(d)
+		c.mu.Lock()
+		c.procRuns++
+		c.cliRuns++
+		c.mu.Unlock()
+		if g.code != clean.code || !sameOut(g.out, clean.out) {
+			f := mk("invocation_dependent", "the same files "+how+" produced different output")
+			f.rf.Invocation, f.rf.Clean, f.rf.Other = v+1, clean.out, g.out
+			out = append(out, f)
+			break
+		}
+	}
 	return out
+}
+
+var invocationNames = []string{"absolute file names, other TMPDIR/TZ/locale", "invoked from the parent directory"}
+
+func (e *env) invokeVariant(d string, t *target, v int) genResult {
+	if v == 0 {
+		tmp := filepath.Join(filepath.Dir(d), "tmpdir")
+		_ = os.MkdirAll(tmp, 0o755)
+		envv := []string{"TMPDIR=" + tmp, "TZ=Pacific/Kiritimati", "LANG=tr_TR.UTF-8", "LC_ALL=tr_TR.UTF-8", "USER=someoneelse", "COLUMNS=20"}
+		abs := make([]string, len(t.files))
+		for i, f := range t.files {
+			abs[i] = filepath.Join(d, f)
+		}
+		return e.generateFrom(e.CLI, d, abs, d, t.files, envv...)
+	}
+	rel := make([]string, len(t.files))
+	for i, f := range t.files {
+		rel[i] = filepath.Join(filepath.Base(d), f)
+	}
+	return e.generateFrom(e.CLI, filepath.Dir(d), rel, d, t.files)
 }
 
 func lastLine(s string) string {
@@ -708,7 +753,7 @@ func Run(tier string) int {
 	cov := map[string]any{
 		"evaluations":                   c.mapRuns + c.histRuns + c.procRuns + c.origins["example-committed"],
 		"distinct_nontrivial":           len(c.distinctOutputs) + len(c.distinctHistories),
-		"rule":                          "one evaluation = one comparison of a generator run with the clean-directory run of the same input: (a) generator with every map range behind the simmap seam under a chosen iteration-order seed (0 sorted, 1 reverse, n shuffles), (b) real generator after a seeded history script (gen, gen of an edited declaration = stale output, truncate at k bytes = killed earlier run, empty, delete, multi-file orders), (c) real generator re-run under GOMAXPROCS 1/2/4/16 (sampled, not controlled), (d) each checked-in example regenerated and compared with the committed file (exhaustive over the examples). distinct_nontrivial = distinct generated outputs (sha256) + distinct (origin, history op sequence) classes",
+		"rule":                          "one evaluation = one comparison of a generator run with the clean-directory run of the same input: (a) generator with every map range behind the simmap seam under a chosen iteration-order seed (0 sorted, 1 reverse, n shuffles), (b) real generator after a seeded history script (gen, gen of an edited declaration = stale output, truncate at k bytes = killed earlier run, empty, delete, multi-file orders), (c) real generator re-run under GOMAXPROCS 1/2/4/16 (sampled, not controlled), (d) each checked-in example regenerated and compared with the committed file (exhaustive over the examples), (e) the same files named absolutely under another TMPDIR/TZ/locale, and invoked from the parent directory. distinct_nontrivial = distinct generated outputs (sha256) + distinct (origin, history op sequence) classes",
 		"samples":                       c.samples,
 		"exhaustive":                    false,
 		"targets_accepted":              c.targets,
@@ -803,6 +848,8 @@ func Replay(file string) int {
 				e.applyOp(d, t, op)
 			}
 			g = e.generate(e.CLI, d, t.files)
+		case rf.Invocation > 0:
+			g = e.invokeVariant(d, t, rf.Invocation-1)
 		default:
 			p := 1
 			if len(rf.Procs) > 0 {
